@@ -19,7 +19,8 @@ def identifiers():
     ids = ["x", "xy", "y", "X", "../x", "../../etc/passwd", "/etc/passwd", "a/b", ".", "..", "-rf", "*", "?", "[a]",
            "$HOME", "`id`", ";rm", "a|b", "a&b", "\\", "a\\b", "'", "\"", "%00", "\x01\x02", "a\x00b", "é", "é",
            "\U0001F600", "x_delete", "tmp", "objects", "hashstore.yaml", "refs/pids", "p" * 5000,
-           hashlib.sha256(A).hexdigest(), hashlib.sha256(b"x").hexdigest(), "ab", "a", "~", "CON", "x.", ".x"]
+           hashlib.sha256(A).hexdigest(), hashlib.sha256(b"x").hexdigest(), "ab", "a", "~", "CON", "x.", ".x",
+           "漢" * 1100 + "/v1", "漢" * 1100 + "/v2", "x" * 2047 + "é/1", "x" * 2047 + "é/2"]
     return ids
 
 
